@@ -157,6 +157,12 @@ pub fn run_line(line: &str) -> String {
             let out = vh::encblocks::raw_literals(&data);
             format!("ok {}", hex(&out[..3.min(out.len())]))
         }
+        // complit <hex literals> : the literals section compress_literals writes for a fresh compressor state
+        "complit" => {
+            let data = crate::util::unhex(a[0]);
+            let (out, new_table) = vh::encblocks::compress_literals(&data);
+            format!("ok {} {}", hex(&out), if new_table { 1 } else { 0 })
+        }
         "framehdr_ser" => {
             // fcs(-1 none) single checksum dictid(-1 none) window(-1 none)
             let v: Vec<i64> = a.iter().map(|x| x.parse::<i64>().unwrap()).collect();
